@@ -46,7 +46,7 @@ fn clear_contract(pre: (Repr, Ghost)) {
     core::mem::forget(s);
 }
 
-// @harness name=clear_heap props=C01,C02,C03,C11 class=U tier=quick big=yes fn=LeanString::clear
+// @harness name=clear_heap hist=yes props=C01,C02,C03,C11 class=U tier=quick big=yes fn=LeanString::clear
 #[kani::proof]
 #[kani::stub(alloc::alloc::alloc, v_alloc)]
 #[kani::stub(alloc::alloc::dealloc, v_dealloc)]
@@ -55,7 +55,7 @@ fn clear_heap() {
     clear_contract(any_heap(MAX_CAP));
 }
 
-// @harness name=clear_other props=C01,C09,C10 class=U tier=quick covers=clear.shared,clear.unique fn=LeanString::clear
+// @harness name=clear_other hist=yes props=C01,C09,C10 class=U tier=quick covers=clear.shared,clear.unique fn=LeanString::clear
 #[kani::proof]
 #[kani::stub(alloc::alloc::alloc, v_alloc)]
 #[kani::stub(alloc::alloc::dealloc, v_dealloc)]
@@ -90,7 +90,7 @@ fn drop_contract(pre: (Repr, Ghost)) {
     }
 }
 
-// @harness name=drop_heap props=C02,C03,C08 class=U tier=quick big=yes fn=Drop::drop
+// @harness name=drop_heap hist=yes props=C02,C03,C08 class=U tier=quick big=yes fn=Drop::drop
 #[kani::proof]
 #[kani::stub(alloc::alloc::alloc, v_alloc)]
 #[kani::stub(alloc::alloc::dealloc, v_dealloc)]
@@ -99,7 +99,7 @@ fn drop_heap() {
     drop_contract(any_heap(MAX_CAP));
 }
 
-// @harness name=drop_other props=C03,C09,C10 class=U tier=quick covers=drop.shared,drop.last_owner fn=Drop::drop
+// @harness name=drop_other hist=yes props=C03,C09,C10 class=U tier=quick covers=drop.shared,drop.last_owner fn=Drop::drop
 #[kani::proof]
 #[kani::stub(alloc::alloc::alloc, v_alloc)]
 #[kani::stub(alloc::alloc::dealloc, v_dealloc)]
